@@ -88,6 +88,30 @@ SPECS = {
         'covers': 'decompress_destripe_cbin.my_function: start batch, seek positions, the while-loop of batches with its kept rows, '
                   'stop rule and padding (sequence of file events), CHUNK_SIZE',
     },
+    'C08': {
+        'items': [
+            {'name': 'rc2xy_x', 'module': 'neuropixel.py', 'function': 'rc2xy', 'kind': 'expr', 'target': 'x', 'free': ['grid'],
+             'params': ['col', 'grid_DX', 'grid_X0']},
+            {'name': 'rc2xy_y', 'module': 'neuropixel.py', 'function': 'rc2xy', 'kind': 'expr', 'target': 'y', 'free': ['grid'],
+             'params': ['row', 'grid_DY', 'grid_Y0']},
+            {'name': 'xy2rc_col', 'module': 'neuropixel.py', 'function': 'xy2rc', 'kind': 'expr', 'target': 'col', 'free': ['grid'],
+             'fraction': True, 'value': 'Int × Int', 'params': ['x', 'grid_DX', 'grid_X0']},
+            {'name': 'xy2rc_row', 'module': 'neuropixel.py', 'function': 'xy2rc', 'kind': 'expr', 'target': 'row', 'free': ['grid'],
+             'fraction': True, 'value': 'Int × Int', 'params': ['y', 'grid_DY', 'grid_Y0']},
+            {'name': 'adc_of', 'module': 'neuropixel.py', 'function': 'adc_shifts', 'kind': 'expr', 'target': 'adc',
+             'free': ['adc_channels', 'n_cycles'], 'elementwise': True, 'params': ['i', 'adc_channels']},
+            {'name': 'geom_flip_x', 'module': 'spikeglx.py', 'function': 'geometry_from_meta', 'kind': 'expr', 'target': "th['x']",
+             'free': ['th', 'cm'], 'params': ['th_x']},
+            {'name': 'geom_tip_y', 'module': 'spikeglx.py', 'function': 'geometry_from_meta', 'kind': 'expr', 'target': "th['y']",
+             'free': ['th', 'cm'], 'params': ['th_y']},
+            {'name': 'geom_flip_col', 'module': 'spikeglx.py', 'function': 'geometry_from_meta', 'kind': 'expr', 'target': "th['col']",
+             'free': ['th', 'cm'], 'elementwise': True, 'params': ['cm_col', 'cm_row']},
+        ],
+        'theorems': ['IblVerif.Tie.C08.rc2xy_eq', 'IblVerif.Tie.C08.xy2rc_eq', 'IblVerif.Tie.C08.adc_eq',
+                     'IblVerif.Tie.C08.siteCols_geomMap', 'IblVerif.Tie.C08.siteCols_shankMap'],
+        'covers': 'neuropixel.rc2xy / xy2rc (grid arithmetic), the ADC number formula of adc_shifts, the NP1 flip / tip offset / column '
+                  'flip of spikeglx.geometry_from_meta (pointwise)',
+    },
     'C09': {
         'items': [
             {'name': 'np_version', 'module': 'spikeglx.py', 'function': '_get_neuropixel_version_from_meta', 'kind': 'fn',
